@@ -21,7 +21,7 @@ var propertyRules = map[string][]string{
 	"C16": {"OU1", "OU2", "OU3", "WR5", "VD10", "VD11"},
 	"C17": {"OU4", "VD12", "DT4", "DT5", "VD13"},
 	"C18": {"ST1", "ST2", "LK1", "LK2", "WR1"},
-	"C19": {"OU5", "OU6", "VD8"},
+	"C19": {"OU5", "OU6", "OU7", "VD8"},
 	"C20": {"VD9", "ST2", "DT4", "DT5", "LK4", "WR5"},
 }
 
